@@ -1122,6 +1122,35 @@ def qa_compare(e1, e2, max_points=300000, depth=0):
                       "atoms": {v: show(it.exprs[v]) for v in it.exprs}})
 
 
+def compare_on_grid(e1, e2, domain, constraint=None, limit=400000):
+    """Exhaustive comparison of two closed forms on a finite grid (every point of the product of ``domain`` that satisfies
+    ``constraint``).  Returns {'verdict': 'differ', witness...}, {'verdict': 'equal-on-grid', 'points': n} or
+    {'verdict': 'unknown'} when a point cannot be evaluated."""
+    names = sorted(domain)
+    total = 1
+    for n in names:
+        total *= len(domain[n])
+    if total > limit:
+        return {"verdict": "unknown", "reason": "grid too large (%d points)" % total}
+    pts = 0
+    for point in itertools.product(*[domain[n] for n in names]):
+        env = dict(zip(names, point))
+        if constraint is not None and not constraint(env):
+            continue
+        try:
+            v1 = evaluate(e1, env)
+            v2 = evaluate(e2, env)
+        except Inconclusive as e:
+            return {"verdict": "unknown", "reason": "cannot evaluate at %s: %s" % ({k: _show_val(v) for k, v in env.items()}, e)}
+        except ZeroDivisionError:
+            continue
+        pts += 1
+        if values_differ(v1, v2):
+            return {"verdict": "differ", "witness": {k: _show_val(v) for k, v in env.items()}, "values": (_show_val(v1), _show_val(v2)),
+                    "how": "exact evaluation on the grid"}
+    return {"verdict": "equal-on-grid", "points": pts}
+
+
 def compare(e1, e2, domain=None, expand_logs=False, samples=None):
     """Decide e1 == e2.
 
